@@ -132,7 +132,7 @@ def run(chk):
         if op == 1:
             kb, fb = rand_tree(depth - 1, leaves)
             return ka * kb, (lambda a, b: fa(a, b) * fb(a, b))
-        c = float(rng.uniform(0.5, 2))
+        c = float(rng.uniform(0.5, 2)) * (-1.0 if rng.uniform() < 0.35 else 1.0)      # negative coefficients are legitimate scalars too
         if op == 2:
             return c * ka, (lambda a, b: c * fa(a, b))
         if op == 3:
